@@ -67,6 +67,21 @@ func verifyPostSignature(
 	}
 }
 
+// verifyAttributeQuerySignature verifies the signature of an attribute query, which arrives as text in a SOAP envelope
+func verifyAttributeQuerySignature(
+	soapRequestF func() string,
+	spF func() *serviceprovider.ServiceProvider,
+	errF func(error),
+) func() error {
+	return func() error {
+		if err := spF().ValidateAttributeQuerySignature(soapRequestF()); err != nil {
+			errF(err)
+			return err
+		}
+		return nil
+	}
+}
+
 func createPostSignature(
 	samlResponse *samlp.ResponseType,
 	key *rsa.PrivateKey,
